@@ -1,5 +1,5 @@
 (* C03 tie T: leaf functions regenerated from the current source (coq/gen/Gen_C03.v, tools/cxx2v.py) equal the model leafs *)
-From CppcmsV Require Import Base.Tac Base.CSem Base.CSemFacts C03.Defs gen.Gen_C03 gen.Gen_C03_fcgi gen.Gen_C03_sock.
+From CppcmsV Require Import Base.Tac Base.CSem Base.CSemFacts C03.Defs gen.Gen_C03 gen.Gen_C03_fcgi gen.Gen_C03_sock gen.Gen_C03_copybuf.
 Local Open Scope N_scope.
 
 (* async_io_buf::next_size (growth policy of the fully buffered asynchronous device), for all sizes below 2^63 *)
@@ -18,3 +18,31 @@ Lemma link_max_packet_len : g_max_packet_len = Z.of_N max_packet_len.
 Proof. reflexivity. Qed.
 Lemma link_max_vec_size : g_max_vec_size = Z.of_nat max_vec.
 Proof. reflexivity. Qed.
+
+(* details::copy_buf: the integer expressions of the current source (initial size; resize argument and setp arguments of the
+   growth branch of overflow(); the length getstr(std::string&) computes and the arguments of its assign) are the model's *)
+Lemma link_cb_init : g_cb_init = Z.of_N CB_INIT.
+Proof. reflexivity. Qed.
+Lemma link_cb_grow size : size < 2 ^ 62 ->
+  g_cb_grow_resize (Z.of_N size) = Z.of_N (cb_grow_resize size) /\
+  g_cb_grow_base (Z.of_N size) = Z.of_N (cb_grow_base size) /\
+  g_cb_grow_end (Z.of_N size) = Z.of_N (cb_grow_end size).
+Proof.
+  intros H. unfold g_cb_grow_resize, g_cb_grow_base, g_cb_grow_end, cb_grow_resize, cb_grow_base, cb_grow_end.
+  assert (H62 : 2 ^ 62 = 4611686018427387904) by reflexivity.
+  assert (Hb : (0 <= Z.of_N size * 2 < 18446744073709551616)%Z) by lia.
+  assert (Hc : (0 <= Z.of_N size + Z.of_N size < 18446744073709551616)%Z) by lia.
+  rewrite (wrapu64_small _ Hb), (wrapu64_small _ Hc). repeat split; lia.
+Qed.
+Lemma link_cb_getstr_n bsize ep pp : pp <= ep -> ep <= bsize -> bsize < 2 ^ 62 ->
+  g_cb_getstr_n (Z.of_N bsize) (Z.of_N ep) (Z.of_N pp) = Z.of_N (cb_getstr_n bsize ep pp).
+Proof.
+  intros H1 H2 H3. unfold g_cb_getstr_n, cb_getstr_n.
+  assert (H62 : 2 ^ 62 = 4611686018427387904) by reflexivity.
+  assert (Hb : (0 <= Z.of_N ep - Z.of_N pp < 18446744073709551616)%Z) by lia.
+  rewrite (wrapu64_small _ Hb).
+  assert (Hc : (0 <= Z.of_N bsize - (Z.of_N ep - Z.of_N pp) < 18446744073709551616)%Z) by lia.
+  rewrite (wrapu64_small _ Hc). lia.
+Qed.
+Lemma link_cb_getstr_assign n bsize : g_cb_getstr_off n bsize = 0%Z /\ g_cb_getstr_len n bsize = n.
+Proof. split; reflexivity. Qed.
